@@ -38,6 +38,8 @@ def obligations(tier):
                   "is_marked, add_markings (object and dict), parse (one entry and two entries)"),
         CH("objects_embedded_and_extensions", H, "sel_objects", t, mode="E1s", functions=F + ["stix2.markings.add_markings", "stix2.parsing.parse"],
            bounds="3 real objects x (every path of their JSON + 10 near misses); validate, add/get/is_marked/set/remove/clear_markings on unmarked and marked objects, parse with granular_markings"),
+        CH("construction_checks_selectors_every_class", H, "sel_construction", t, mode="E1s", functions=F + ["stix2.base._STIXBase._check_object_constraints"],
+           bounds="enriched instance of each of 59 classes (both versions) that defines granular_markings x 2 addressing selectors and 4 near misses x (parse, constructor): accepted exactly when the selector addresses something"),
     ] + ([CH("every_class_every_path_p%d" % q, H, "sel_all_classes", t, mode="E1s", functions=F, env={"VERIF_PART": str(q)},
               bounds="classes with index %% 8 == %d of 59 (enriched instance of every SDO/SRO/SCO class of both versions): every JSON path + systematic near misses" % q)
           for q in range(8)] if tier == "thorough" else []) + [
